@@ -207,7 +207,7 @@ Definition missing_reason (e : bytes * list want * skind * option aval) : arg :=
   match e with
   | (_, _, SDate, Some (ANum _ _)) => AS "numeric date claim (exp/nbf/iat) present with a number is not shown as the UTC time it denotes"
   | (_, _, _, Some (AStr [])) => AS "registered field present with the empty string as value is not shown"
-  | (_, _, SAlg, _) => AS "alg present with a string value is not shown"
+  | (_, _, SAlg, _) => AS "alg present with a string value is not shown as that algorithm (RFC 7518 name, family, hash and curve; other strings verbatim)"
   | _ => AS "registered field present with a string value is not shown with that value"
   end.
 
